@@ -11,6 +11,7 @@ import (
 	"math"
 	"os"
 	"reflect"
+	"runtime"
 	"sort"
 	"strings"
 )
@@ -133,7 +134,29 @@ func vAssert(id string, c bool) {
 // vKnown marks the input region of a recorded finding. Natively it carves out nothing.
 func vKnown(id string, inRegion bool) bool { return false }
 
-func vAllocBound(n int)          {}
+// vAllocBound: the engine checks every allocation whose size comes from the input against n elements. Natively
+// the allocation volume is measured instead, so that a reported over-allocation can be confirmed by replay:
+// vAllocCheck fails when more than 64 octets per allowed element (plus 4 MiB) were allocated since vAllocBound.
+var vAllocLimit int
+var vAllocBase uint64
+
+func vAllocBound(n int) {
+	vAllocLimit = n
+	var ms runtime.MemStats
+	runtime.ReadMemStats(&ms)
+	vAllocBase = ms.TotalAlloc
+}
+
+func vAllocCheck() {
+	if vAllocLimit <= 0 {
+		return
+	}
+	var ms runtime.MemStats
+	runtime.ReadMemStats(&ms)
+	if ms.TotalAlloc-vAllocBase > uint64(vAllocLimit)*64+4<<20 {
+		panic(vViolated{"alloc-bound"})
+	}
+}
 func vSteps() int                { return 0 }
 func vStepLimit(n int)           {}
 func vSymbolic() bool            { return false }
